@@ -236,6 +236,8 @@ def gen_cases(run):
     # ---- booleans ---------------------------------------------------------------------------
     for lit, v in (("TRUE", "True"), ("FALSE", "False"), ("true", "True"), ("BOOL#TRUE", "True"), ("BOOL#FALSE", "False")):
         cases.append(Case("bool", prog_init("BOOL", lit), ("const", {"kind": "bool", "value": v})))
+    for lit, v in (("BOOL#1", "True"), ("BOOL#0", "False"), ("bool#1", "True")):
+        cases.append(Case("bool", prog_init("BOOL", lit), ("const", {"kind": "bool", "value": v}), note="bool-digit"))
     # ---- direct addresses -------------------------------------------------------------------
     comps_list = [["0"], ["1"], ["9"], ["10"], ["123"], ["1", "2"], ["10", "25"], ["1", "2", "3"], ["100", "200", "300"], ["4294967295"],
                   ["4294967296"], ["1", "99999999999999999999"], ["007"]]
@@ -320,6 +322,7 @@ def model_matches(case, fields, obs):
     return None
 
 
+KNOWN_BOOL_DIGIT = "bool-hash-digit-rejected"
 KNOWN_MULTI_UNIT = "duration-multi-unit-rejected"
 
 
@@ -339,6 +342,9 @@ def search(run, info):
             obs = observed(impl[i])
             run.count((bname, c.src), True, c.tag)
             if not matches(c.expect, obs):
+                if c.note == "bool-digit" and obs[0] == "reject" and KNOWN_BOOL_DIGIT in known_keys:
+                    run.known_finding(KNOWN_BOOL_DIGIT, "the typed boolean literals BOOL#1 / BOOL#0 are rejected with a syntax error")
+                    continue
                 if c.note == "multi-unit" and obs[0] == "reject" and KNOWN_MULTI_UNIT in known_keys:
                     run.known_finding(KNOWN_MULTI_UNIT, "a duration literal with more than one unit part (T#1h30m) is rejected with a syntax error")
                     continue
